@@ -23,7 +23,7 @@ Theorem legacy_total_refuted :
 Proof.
   exists [corrupt_bsize_header], {| t_err := EEOF; t_with_last := false |}.
   split; [|split; [|split]].
-  - constructor; [vm_compute; reflexivity|constructor].
+  - unfold chunks_ok. cbn [last]. discriminate.
   - apply bytes_okb_ok. vm_compute. reflexivity.
   - vm_compute. reflexivity.
   - vm_compute. reflexivity.
